@@ -3,6 +3,7 @@
     [string], [ascii], [N], [Z], [positive], [nat] stay extracted datatypes.
     No [Extract Constant]. *)
 From Coq Require Extraction ExtrOcamlBasic.
-From SA Require Import Model.
+From SA Require Import Model Monitors.
 Extraction Language OCaml.
-Extraction "model.ml" run binop_name prim_ty_name cmpop_name logicop_name err_kind_name all_err_kind.
+Extraction "model.ml" run binop_name prim_ty_name cmpop_name logicop_name err_kind_name all_err_kind
+  chk_C09.
